@@ -77,6 +77,49 @@ def self_ref_docs():
     return d
 
 
+def spliced_cycle_docs(rng, n):
+    """reference cycles that pass through a PLAIN-TEXT substitution: the replacement text has no `${`, yet
+    next to the text around it it re-creates a token (a computed name `${${p}}` whose inner variable is
+    defined later; a `$`, `{`, `}` or `${` that comes out of a variable). Every substitution round must
+    count towards the expansion bound, whatever the replacement looks like; two- and three-step cycles."""
+    fixed = [
+        b"x=${${p}}\np=x\ny=${x}\n",                      # computed name, 2 steps (one plain)
+        b"x=${a}{x}\na=$\ny=${x}\n",                      # spliced `$`
+        b"x=$${b}x}\nb={\ny=${x}\n",                      # spliced `{`
+        b"x=${x${c}\nc=}\ny=${x}\n",                      # spliced `}`
+        b"x=${d}x}\nd=${\ny=${x}\n",                      # spliced `${`
+        b"x=${${p}}\np=${q}\nq=x\ny=${x}\n",             # 3 steps, one of them plain
+        b"x=${${p}${q}}\np=x\nq=\ny=${x}\n",             # name glued from two plain variables
+        b"x=${a}{${b}}\na=$\nb=x\ny=${x}\n",             # `$` and the name both spliced
+        b"[s]\nx=${${s.p}}\np=s.x\ny=${s.x}\n",          # the same inside a section
+        b"x=${%E}{x}\ny=${x}\n",                           # the `$` comes from the environment
+        b"x=${!D}{x}\ny=${x}\n",                           # ... or from a command (stub prints `[D]`: no cycle)
+        b"x=${${p}}z\np=x\ny=${x}\nw=${y}${x}\n",        # growing: one byte per lap
+    ]
+    docs = list(fixed)
+    names = [b"x", b"k1", b"v.w", b"n_"]
+    for _ in range(n):
+        x, p, q = rng.sample(names, 3)
+        pre = b"sec." if rng.random() < 0.3 else b""       # full names inside a section
+        X, P, Q = pre + x, pre + p, pre + q
+        fill = bytes(rng.choice(b"ab =#") for _ in range(rng.randrange(0, 3)))
+        kind = rng.randrange(6)
+        if kind == 0:
+            d = b"%s=%s${${%s}}\n%s=%s\ny=${%s}\n" % (x, fill, P, p, X, X)
+        elif kind == 1:
+            d = b"%s=${%s}{%s}%s\n%s=$\ny=${%s}\n" % (x, P, X, fill, p, X)
+        elif kind == 2:
+            d = b"%s=$${%s}%s}\n%s={\ny=%s${%s}\n" % (x, P, X, p, fill, X)
+        elif kind == 3:
+            d = b"%s=${%s${%s}\n%s=}\ny=${%s}%s\n" % (x, X, P, p, X, fill)
+        elif kind == 4:
+            d = b"%s=${${%s}}\n%s=${%s}\n%s=%s\ny=${%s}\n" % (x, P, p, Q, q, X, X)
+        else:
+            d = b"%s=${${%s}${%s}}\n%s=%s\n%s=%s\ny=${%s}\n" % (x, P, Q, p, X[:2], q, X[2:], X)
+        docs.append((b"[sec]\n" if pre else b"") + d)
+    return docs
+
+
 def nesting_docs():
     docs = []
     for depth in (10, 254, 255, 256, 257, 300):
@@ -115,6 +158,8 @@ def parser_streams(check):
     sts.append(Stream("ini-sampled-short", ops))
     # --- hand-made families
     sts.append(Stream("ini-self-referential", [G.ini_op(0x3d, d, INI_ENV) for d in self_ref_docs()]))
+    sts.append(Stream("ini-spliced-cycles", [G.ini_op(0x3d, d, {**INI_ENV, b"E": b"$"})
+                                             for d in spliced_cycle_docs(rng, 150 if tier == "quick" else 3000)]))
     tbl = AC_TABLES[0]
     sts.append(Stream("aconf-long-lines", [G.ac_op(rng.randrange(4), False, d, tbl) for d in long_line_docs(rng)]))
     sts.append(Stream("aconf-nesting", [G.ac_op(0, False, d, tbl) for d in nesting_docs()]))
